@@ -91,6 +91,8 @@ def run_schedule(mod, max_size, programs, plan, opcodes=False, idle=None, fail_c
     pool = mod.ObjectPool(creator, after_remove=after_remove, max_size=max_size, lock_generator=lambda: SLock(sched),
                           idle_timeout=(5 if idle is not None else 0))
     used, free = make_deques(sched)
+    if isinstance(pool._used_objs, (set, frozenset)):
+        used = make_deques.UsedSet()        # a pool that keeps its checked-out objects in a set gets a recording set
     pool._used_objs, pool._free_objs = used, free
     clock = {"t": 0.0}
     if idle is not None:
@@ -135,7 +137,7 @@ def run_schedule(mod, max_size, programs, plan, opcodes=False, idle=None, fail_c
     viol = []
 
     def check_invariants(where):
-        u = list(collections.deque.__iter__(used))
+        u = list((set if isinstance(used, set) else collections.deque).__iter__(used))
         f = list(collections.deque.__iter__(free))
         ids = [o.i for o in u + f]
         if len(ids) > pool.max_size:
@@ -201,7 +203,7 @@ def run_schedule(mod, max_size, programs, plan, opcodes=False, idle=None, fail_c
         return f
     ok = sched.run([body(i, p) for i, p in enumerate(programs)], "POOLSRC")
     Obj.on_stamp = None
-    u = list(collections.deque.__iter__(used))
+    u = list((set if isinstance(used, set) else collections.deque).__iter__(used))
     f = list(collections.deque.__iter__(free))
     if not ok or sched.deadlock:
         viol.append("deadlock: some thread never finished")
@@ -287,6 +289,8 @@ def run_pc_schedule(mod, base, max_size, programs, plan):
         base.pool = real_pool_mod
     pool = pc.client_pool
     used, free = make_deques(sched)
+    if isinstance(pool._used_objs, (set, frozenset)):
+        used = make_deques.UsedSet()        # a pool that keeps its checked-out objects in a set gets a recording set
     pool._used_objs, pool._free_objs = used, free
     created = []
     orig_create, orig_after = pool._obj_creator, pool._after_remove
@@ -306,7 +310,7 @@ def run_pc_schedule(mod, base, max_size, programs, plan):
     pool._obj_creator, pool._after_remove = creator, after_remove
 
     def check_invariants(where):
-        u = list(collections.deque.__iter__(used))
+        u = list((set if isinstance(used, set) else collections.deque).__iter__(used))
         f = list(collections.deque.__iter__(free))
         if len(u) + len(f) > pool.max_size:
             viol.append(f"{where}: pool holds {len(u) + len(f)} > max_size {pool.max_size}")
@@ -369,7 +373,7 @@ def run_pc_schedule(mod, base, max_size, programs, plan):
                 check_invariants("after op")
         return f
     ok = sched.run([body(i, p) for i, p in enumerate(programs)], "POOLSRC")
-    u = list(collections.deque.__iter__(used))
+    u = list((set if isinstance(used, set) else collections.deque).__iter__(used))
     f = list(collections.deque.__iter__(free))
     if not ok or sched.deadlock:
         viol.append("deadlock: some thread never finished")
@@ -503,7 +507,7 @@ def main(argv):
             npoints = min(s0.pos, 90 if ctx.thorough else 70)
             step = 1 if len(programs[0]) == 1 and len(programs) == 2 else 3
             b = bound if (len(programs) == 2 and len(programs[0]) == 1) else 1
-            if programs == [["useOk"], ["useOk"]] and mx == 1:
+            if programs in ([["useOk"], ["useOk"]], [["useFail"], ["clear"]]) and mx == 1:
                 b = 2             # two plain callers of a pool of one: there-and-back schedules also in the quick tier (the size check and the creation are one lock hold)
             pts = range(0, npoints, step)
             if b == 2:
